@@ -77,3 +77,10 @@ func (s *Store) Keys() [][]byte {
 
 // Len returns the number of rows.
 func (s *Store) Len() int { s.mu.Lock(); defer s.mu.Unlock(); return len(s.M) }
+
+// Calls returns the number of Add and FindByKey calls made so far.
+func (s *Store) Calls() (add, get int) {
+	s.mu.Lock()
+	defer s.mu.Unlock()
+	return s.AddCalls, s.GetCalls
+}
